@@ -239,6 +239,8 @@ def expected_candidates(c, local_tz=None):
             delta = timedelta(**{c["rel"][0]: n})
             res_wall = d + delta
             res = localize(ta, res_wall) if A != "local" else res_wall.replace(tzinfo=ta)
+            if res is not None and A == "local" and res.astimezone(UTC).astimezone(ta).replace(tzinfo=None) != res_wall:
+                return None  # the moved wall time falls into a DST gap of the local zone (zoneinfo does not refuse it, pytz does)
             if res is None or res.utcoffset() != base.utcoffset():
                 return None  # a transition inside the span: two defensible instants
             # also require no transition strictly inside the span
